@@ -11,7 +11,13 @@ RULE = ("model tie as C16 (same models, whole traces) restricted to DAMAGED disk
         "(flip at boundary/random offsets, truncate to boundary/random lengths incl. 0, remove): Checker(...).results() must be < 100 "
         "(content path = root, for the first set of each tree also = parent directory, a part through the CLI).  A damage set counts "
         "only if every truncated/removed region has described bytes that are not all zero (guard kept although the data is random); "
-        "the reference verifier must then find a failing piece (checked).  Non-trivial = distinct and hits a boundary class "
+        "the reference verifier must then find a failing piece (checked).  REUSED OBJECTS: per tree and metafile kind three Checker "
+        "objects are created on the INTACT tree and asked once (results(); iter_hashes() run to its end then _result; alternating), "
+        "then asked again after every damage set: each answer must be < 100 when the set qualifies.  AIMED layouts (model tie, all "
+        "modes' judgement, and end to end over every v2-view kind + v1): an ABSENT zero-length file that is not the first file with "
+        "the damage in a file sorting after it ([100,0,100] rm 1 + flip 2; [pl+1,0,0,5] rm 1, rm 2, trunc 3; an absent empty file "
+        "between two multi-piece files with the last one truncated; ...), and piece lengths 64/128 KiB with files of 3/5/6/7 blocks "
+        "below one piece (exact, -1, +1 byte) or in the last piece of a multi-piece file, flipped / truncated.  Non-trivial = distinct and hits a boundary class "
         "(Appendix B, recheck row).")
 TRUSTED_BASE = rc.TRUSTED_BASE
 ASSUMPTIONS = rc.ASSUMPTIONS
